@@ -172,7 +172,7 @@ class BaseBatch(abc.ABC):
 
             # results read by position or as a tuple follow the order the calls were made in
             order = {request.id: idx for idx, request in enumerate(batch_request) if request.id is not None}
-            batch_response._responses.sort(key=lambda response: order.get(response.id, len(order)))
+            batch_response._responses.sort(key=lambda response: order.get(response.id, len(batch_request)))
 
 
 class Batch(BaseBatch):
